@@ -436,9 +436,10 @@ class VAMMessage(CooperativeAwarenessMessage):
         dict
             Position confidence ellipse value.
         """
+        # SemiAxisLength: 0..4093 in cm, 4094 = outOfRange, 4095 = unavailable
         position_confidence_ellipse = {
-            "semiMajorAxisLength": int(epx * 100),
-            "semiMinorAxisLength": int(epy * 100),
+            "semiMajorAxisLength": min(4094, max(0, int(epx * 100))),
+            "semiMinorAxisLength": min(4094, max(0, int(epy * 100))),
             "semiMajorAxisOrientation": 0,
         }
 
